@@ -315,6 +315,92 @@ func c05Paths(r *run.Run) {
 		})
 }
 
+// sequences of path operators: the interpreter's state between operators (current point, the
+// alternation of the h/v families, the width flag) under every operator in every operand-count form
+func c05Sequences(r *run.Run) {
+	type tok struct {
+		op, n, rot int
+		name       string
+	}
+	// "full" sequences carry two operand-value rotations and run in every context (first move, width
+	// operand, placement of the last operator); "long" sequences are one operator longer, with one
+	// rotation, in the plain context only
+	var toks, toks1 []tok
+	fullLen := 2
+	if !r.Quick() {
+		fullLen = 3
+	}
+	for _, f := range t2PathForms {
+		for _, n := range f.forms {
+			for _, rot := range []int{0, 2} {
+				toks = append(toks, tok{f.op, n, rot, fmt.Sprintf("%s/%d", f.name, n)})
+			}
+			toks1 = append(toks1, tok{f.op, n, 1, fmt.Sprintf("%s/%d", f.name, n)})
+		}
+	}
+	placements := []string{"inline", "operator in a local subroutine", "operands and operator in a global subroutine", "operands in a local subroutine"}
+	r.Explore(explore.Config{Name: "C05.sequences", Deadline: r.PartDeadline(0.9)},
+		fmt.Sprintf("all programs 'move; op1; ..; opk; endchar' over the (path operator, operand-count form) combinations (17 operators, 46 forms): k <= %d with two operand-value rotations, first move from {rmoveto, hmoveto, vmoveto} with and without a width operand, the last operator placed inline / in a local subroutine / with its operands in a global subroutine / with only its operands in a subroutine; and k = %d with one rotation in the plain context", fullLen, fullLen+1),
+		func(c *explore.Ctx) {
+			k := 1 + c.Choose(fullLen+1, "operators")
+			var sel []tok
+			menu := toks
+			if k > fullLen {
+				menu = toks1
+			}
+			for i := 0; i < k; i++ {
+				sel = append(sel, menu[c.Choose(len(menu), "operator")])
+			}
+			firstMove, width, place := 0, false, 0
+			if k <= fullLen {
+				firstMove = c.Choose(3, "first move")
+				width = c.Bool("width operand")
+				place = c.Choose(len(placements), "placement of the last operator")
+			}
+			p := &t2prog{}
+			if width {
+				p.num(-21.5)
+			}
+			switch firstMove {
+			case 0:
+				p.nums(10, 20).op(oRmoveto)
+			case 1:
+				p.num(15).op(oHmoveto)
+			default:
+				p.num(-8).op(oVmoveto)
+			}
+			tc := t2Case{defaultWidth: 480, nominalWid: 620.5}
+			for i, t := range sel {
+				vals := valsFrom(t.n, t.rot+i)
+				if i < k-1 || place == 0 {
+					p.nums(vals...).op(t.op)
+					continue
+				}
+				sub := &t2prog{}
+				switch place {
+				case 1:
+					p.nums(vals...)
+					sub.op(t.op).op(oReturn)
+					tc.lsubrs = [][]byte{sub.code}
+					p.num(-107).op(oCallsubr)
+				case 2:
+					sub.nums(vals...).op(t.op).op(oReturn)
+					tc.gsubrs = [][]byte{sub.code}
+					p.num(-107).op(oCallgsubr)
+				default:
+					sub.nums(vals...).op(oReturn)
+					tc.lsubrs = [][]byte{sub.code}
+					p.num(-107).op(oCallsubr).op(t.op)
+				}
+				p.desc = append(p.desc, "{"+strings.Join(sub.desc, " ")+"}")
+			}
+			p.op(oEndchar)
+			tc.code = p.code
+			c.Sample(func() any { return map[string]any{"program": p.desc, "placement": placements[place]} })
+			t2Compare(c, "sequence ending in "+sel[k-1].name+", "+placements[place], tc, p.desc)
+		})
+}
+
 func c05Arith(r *run.Run) {
 	vals := []float64{-2, 0, 1, 2, 3, 0.5}
 	unary := []int{1205, 1209, 1214, 1226, 1227, 1218}
@@ -693,5 +779,6 @@ func init() {
 		c05Subrs(r)
 		c05Faults(r)
 		c05CID(r)
+		c05Sequences(r)
 	})
 }
